@@ -24,7 +24,9 @@ var (
 	seqCfgs      = []cfg{cfgSimple, cfgSimpleMin, cfgECS, cfgECSMin}
 
 	// age sweep: min TTL 2 s so that the override matters for 1 s answers
-	ageCfgs = []cfg{cfgSimple, {Cache: "simple-cache", Override: true, MinTTL: 2}, cfgECS, {Cache: "ecs-cache", Override: true, MinTTL: 2}}
+	ageCfgs = []cfg{cfgSimple, {Cache: "simple-cache", Override: true, MinTTL: 2}, cfgECS, {Cache: "ecs-cache", Override: true, MinTTL: 2},
+		// override disabled but a positive minimum configured (validation demands min > 0 and cmd passes it on)
+		{Cache: "simple-cache", Override: false, MinTTL: 60}, {Cache: "ecs-cache", Override: false, MinTTL: 60}}
 )
 
 type client struct {
@@ -708,6 +710,9 @@ func (m *monitor) judgeAgeCase(ac *ageCase, in *instance) {
 			hv.AMin, hv.AMax = p.Sent-last.Ret, p.Ret-last.UpEnd
 		}
 		lifeLeft := ac.Life - hv.AMax.Seconds()
+		if !c.Override && c.MinTTL > 0 && last != nil && hv.AMin.Seconds() > ac.Life {
+			r.Bucket("age_probes_past_lifetime_override_off_with_min_"+c.Cache, 1)
+		}
 		cls := fmt.Sprintf("age/%s/%s/life%.0f/%04dms", c, ac.Kind, ac.Life, (hv.AMin.Milliseconds()/100)*100)
 		tw := *ac.twin
 		tw.C.ID = p.C.ID // the twin was asked once with another message ID
@@ -900,6 +905,7 @@ func TestCheck(t *testing.T) {
 		"(history) random walks of 8-15 requests over a base and all its variants; (cacheability) every response class x qtype x config asked three times; " +
 		"(age-sweep) entries with original TTL 1-3 s probed after real sleeps up to TTL+1 s, hundreds of cases sleeping in parallel on one shared instance per config; " +
 		"(sibling-subnets) ECS cache, subnet-dependent answers (scope = source length): two client locations whose GeoIP subnets are siblings under one prefix length (IPv4 /12 /19 /20 /21 /23, IPv6 /44 /52 /57 /61; controls /8 /16 /24, /48 /56 /64), location from the client address or from its ECS option, history [A, B, A, B]; " +
+		"(fake-ecs-names) ECS cache: subdomains and mixed-case spellings of names on the ecscache.FakeECSFQDNs list with a scoped, subnet-dependent upstream answer, asked from two locations [A, B, A, B]; the listed names themselves (scoped echo, location-independent answer) as controls; age sweeps also run with the override DISABLED and a 60 s minimum configured; " +
 		"(wired) histories of 10-17 names asked three times on an instance whose dnsmsg.Cloner is shared with message constructors that build blocked / rewritten answers between the cache accesses and into which every written response is disposed (production wiring); " +
 		"(frontend) the middleware behind the real plain-DNS server with the cloner as Disposer: a UDP query whose answer the server truncates, then the same question over TCP / with a large EDNS size (and TCP, truncated UDP, TCP), compared with a cold server's answer; " +
 		"(servfail ages) SERVFAIL with SOA / answer / EDE and record TTL 1-3 s inside the age sweep of all four configs (override minimum 2 s), probed before the lifetime, between lifetime and minimum, and past both; SERVFAIL without records and with record TTL 20/45/90/3600 s (override minimum 60 s and no override) probed around min(record TTL, 30 s) and past 30 s, sleeping in the background of the other phases; " +
@@ -918,7 +924,7 @@ func TestCheck(t *testing.T) {
 		name string
 		f    func()
 	}{{"info", m.phaseInfo}, {"separation+history", m.phaseSeparation}, {"cacheability", m.phaseCacheability},
-		{"sibling-subnets", m.phaseSiblings}, {"wired", m.phaseWired}, {"frontend", m.phaseFrontend}, {"age-sweep", m.phaseAges}, {"concurrent", m.phaseConcurrent}} {
+		{"sibling-subnets", m.phaseSiblings}, {"fake-ecs-names", m.phaseFakeECS}, {"wired", m.phaseWired}, {"frontend", m.phaseFrontend}, {"age-sweep", m.phaseAges}, {"concurrent", m.phaseConcurrent}} {
 		st := now()
 		ph.f()
 		phaseWall[ph.name] = (now() - st).Seconds()
@@ -957,6 +963,11 @@ func TestCheck(t *testing.T) {
 		r.Require("servfail_override_probes_between_lifetime_and_min_"+cn, 20)
 		r.Require("servfail_probes_past_30s_"+cn, 12)
 	}
+	for _, cn := range []string{"simple-cache", "ecs-cache"} {
+		r.Require("age_probes_past_lifetime_override_off_with_min_"+cn, 15)
+	}
+	r.Require("fake_ecs_subdomain_separation_observed", 12)
+	r.Require("fake_ecs_listed_name_shared_hit", 4)
 	r.Require("sibling_separation_observed:unaligned", 30)
 	r.Require("sibling_separation_observed:octet-aligned", 20)
 	r.Require("sibling_own_entries_hit:unaligned", 30)
